@@ -3,6 +3,9 @@ package main
 import (
 	"encoding/json"
 	"fmt"
+	"os"
+	"os/exec"
+	"path/filepath"
 	"sort"
 	"strings"
 	"sync"
@@ -206,7 +209,7 @@ func init() {
 	})
 	// ------------------------------------------------------------------ C08
 	register("C08", func(r *Reporter) {
-		r.Cov["rule"] = "RegDep, MemDep, Shadow, Tail and General cases; each case is run 4 times on fresh machines of every configuration (two of them concurrently with other machines in the same process), once with a parsed Application previously run on a different variant, and the (cycles, registers, memory) triples must be identical. The specification's role is input selection; non-trivial = at least 3 executed instructions"
+		r.Cov["rule"] = "RegDep, MemDep, Shadow, Tail and General cases; each case is run 4 times on fresh machines of every configuration (two of them concurrently with other machines in the same process), once with a parsed Application previously run on a different variant, and a sample of the (case, configuration) pairs is repeated in two other processes (GOMAXPROCS=1 and 16, hence other map-iteration seeds); the (cycles, registers, memory) triples must be identical. The specification's role is input selection; non-trivial = at least 3 executed instructions"
 		fams := []famRun{famRunOf("RegDep", "small"), famRunOf("MemDep", "small"), famRunOf("Tail", "small"), famRunOf("Shadow", "small"), famRunOf("Repo", "small")}
 		if tier == "thorough" {
 			fams = []famRun{famRunOf("RegDep", "large"), famRunOf("MemDep", "large"), famRunOf("Tail", "large"), famRunOf("Shadow", "large"), famRunOf("Repo", "large"), generalRuns()[1]}
@@ -255,9 +258,54 @@ func detOf(res RunResult) detKey {
 	return detKey{res.Cycles, res.Outcome(), fmtRegs(res.Regs), fmt.Sprint(res.Mem)}
 }
 
+// childJob is one (case, configuration) pair re-run in another process.
+type childJob struct {
+	Text    string           `json:"text"`
+	Variant string           `json:"variant"`
+	Par     int              `json:"par"`
+	Regs0   map[string]int32 `json:"regs0"`
+	Img     string           `json:"img"`
+	MemSize int              `json:"memSize"`
+	Mem0    map[int]byte     `json:"mem0"`
+	N       int              `json:"n"`
+	Digest  string           `json:"digest"`
+	Desc    string           `json:"desc"`
+	Tags    []string         `json:"tags"`
+}
+
+func digestOf(k detKey) string { return hashKey(fmt.Sprint(k.cycles), k.out, k.regs, k.mem) }
+
+// childMain (hidden subcommand `childrun <file>`): runs every job of the file in this process
+// and prints one digest per line.
+func init() {
+	register("childrun", func(r *Reporter) {
+		b, err := os.ReadFile(os.Args[2])
+		if err != nil {
+			inconclusive("%v", err)
+		}
+		var jobs []childJob
+		if err := json.Unmarshal(b, &jobs); err != nil {
+			inconclusive("%v", err)
+		}
+		for _, j := range jobs {
+			app, err := risc.Parse(j.Text)
+			if err != nil {
+				fmt.Println("parse-error")
+				continue
+			}
+			in := InitState{Img: j.Img, MemSize: j.MemSize, Regs: j.Regs0, MemInit: j.Mem0}
+			fmt.Println("D " + digestOf(detOf(RunApp(Config{Variant: j.Variant, Par: j.Par}, app, in, Budget(j.N, j.Par)))))
+		}
+		os.Exit(0)
+	})
+}
+
 // detRun checks determinism and isolation (C08).
 func detRun(r *Reporter, fams []famRun) {
 	cfgs := AllConfigs()
+	var jobs []childJob
+	var jmu sync.Mutex
+	caseNo := 0
 	for _, fr := range fams {
 		o := TLCOpts{Module: fr.Module, Cfg: famCfg(fr.Consts), Simulate: fr.Simulate, Depth: fr.Depth, Seed: seed*1000 + fr.SeedOff}
 		st := streamCases(r, o, 16, func(c *ProgCase) {
@@ -305,6 +353,14 @@ func detRun(r *Reporter, fams []famRun) {
 				_ = RunApp(dirty, shared, other, Budget(c.Exp.N, 2)*4)
 				reused := detOf(RunApp(cfg, shared, c.Init(), Budget(c.Exp.N, cfg.Par)))
 				r.addTraces(6)
+				jmu.Lock()
+				caseNo++
+				if caseNo%7 == 0 && len(jobs) < 6000 { // a sample of the pairs is repeated in another process
+					in := c.Init()
+					jobs = append(jobs, childJob{Text: text, Variant: cfg.Variant, Par: cfg.Par, Regs0: c.Regs0, Img: c.Img, MemSize: c.MemSize,
+						Mem0: in.MemInit, N: c.Exp.N, Digest: digestOf(ks[0]), Desc: oneLine(c.Prog) + " on " + cfg.String(), Tags: c.Tags})
+				}
+				jmu.Unlock()
 				what := ""
 				sym := "value"
 				for i := 1; i < 4; i++ {
@@ -335,4 +391,44 @@ func detRun(r *Reporter, fams []famRun) {
 			inconclusive("%s generated no case", fr.Module)
 		}
 	}
+	// another process (other map-iteration seeds), once with GOMAXPROCS=1 and once with 16
+	if len(jobs) == 0 {
+		return
+	}
+	dir := newWorkDir("child")
+	jb, _ := json.Marshal(jobs)
+	jf := filepath.Join(dir, "jobs.json")
+	must(os.WriteFile(jf, jb, 0o644))
+	for _, procs := range []string{"1", "16"} {
+		cmd := exec.Command(os.Args[0], "childrun", jf)
+		cmd.Env = append(os.Environ(), "GOMAXPROCS="+procs)
+		out, err := cmd.Output()
+		if err != nil {
+			inconclusive("child process failed: %v", err)
+		}
+		var ds []string
+		for _, l := range strings.Split(string(out), "\n") {
+			if strings.HasPrefix(l, "D ") {
+				ds = append(ds, l[2:])
+			}
+		}
+		if len(ds) != len(jobs) {
+			inconclusive("child process returned %d results for %d jobs", len(ds), len(jobs))
+		}
+		r.addTraces(int64(len(jobs)))
+		for i, j := range jobs {
+			if ds[i] == j.Digest {
+				continue
+			}
+			cfg := Config{Variant: j.Variant, Par: j.Par}
+			desc := fmt.Sprintf("%s: another process (GOMAXPROCS=%s) returns a different (cycles, registers, memory) triple [%s]", j.Desc, procs, strings.Join(j.Tags, ","))
+			if id := matchFinding("C08", append([]string{"det:process"}, j.Tags...), &cfg, "process"); id != "" {
+				r.KnownOn(id, cfg.String(), desc)
+				continue
+			}
+			jj := j
+			r.ViolateMin("process|"+j.Variant, len(j.Text), desc, func() any { return jj })
+		}
+	}
+	r.Cov["pairs_repeated_in_other_processes"] = len(jobs)
 }
